@@ -894,7 +894,7 @@ def gen_msg_decls(rng, tier):
                 e = spell_int(ty, b, ["lit", "const", "paren"][(bi + n) % 3], env, "b")
                 d = Decl("mi%d" % n, ty, attr([block("validate", [[tid(kind), EQ, tx(e)]]),
                                                derive_block(["Debug", "FromStr"])]), env=env,
-                         name=["T", "Amount", "Px"][n % 3], tags={"msg", "int"})
+                         name=["T", "Amount", "Px", "ExitCodeError", "Error"][n % 5], tags={"msg", "int"})
                 d.bounds = [b]
                 d.vkind = kind
                 d.default_arg = None
@@ -909,7 +909,7 @@ def gen_msg_decls(rng, tier):
                 e = spell_float(ty, bt, ["lit", "const"][(bi + n) % 2], env, "b")
                 d = Decl("mf%d" % n, ty, attr([block("validate", [[tid(kind), EQ, tx(e)]]),
                                                derive_block(["Debug", "FromStr"])]), env=env,
-                         name=["T", "Dist"][n % 2], tags={"msg", "float"})
+                         name=["T", "Dist", "RoundingError"][n % 3], tags={"msg", "float"})
                 d.bounds = [fbits(bt, is64)]
                 d.vkind = kind
                 d.default_arg = None
@@ -923,7 +923,7 @@ def gen_msg_decls(rng, tier):
                 e = spell_int("usize", b, sty, env, "b")
                 d = Decl("ms%d" % n, "String", attr([block("validate", [[tid(kind), EQ, tx(e)]]),
                                                      derive_block(["Debug", "FromStr"])]), env=env,
-                         name=["T", "Name"][n % 2], tags={"msg", "str"})
+                         name=["T", "Name", "UserFacingError"][n % 3], tags={"msg", "str"})
                 d.bounds = [b]
                 d.vkind = kind
                 d.default_arg = None
@@ -990,7 +990,9 @@ def gen_serde_decls(rng, tier):
     for d in base:
         if any(t[0] == "id" and t[1] == "const_fn" for t in d.toks):
             continue
-        d.toks = replace_derive(d.toks, ["Debug", "Clone", "PartialEq", "Serialize", "Deserialize"])
+        has_val = any(t[0] == "id" and t[1] == "validate" for t in d.toks)
+        conv = ["TryFrom"] if len(out) % 2 == 0 else ([] if has_val else ["From"])
+        d.toks = replace_derive(d.toks, ["Debug", "Clone", "PartialEq", "Serialize", "Deserialize"] + conv)
         d.id = "z" + d.id
         if d.name == "T":
             d.name = ["T", "Amount", "Px"][len(out) % 3]
